@@ -434,7 +434,45 @@ class Tree:
             # `x.m(...)` where the local x is bound exactly once in this function, to `Cls(...)` of a class of the tree:
             # the method of that class (an object of a subclass cannot be what the constructor call returns)
             target = self._method_of_local(mod, scope, call.func.value.id, call.func.attr)
+        if target is None and scope is not None and isinstance(call.func, ast.Attribute) and isinstance(call.func.value, ast.Attribute) \
+                and isinstance(call.func.value.value, ast.Name) and call.func.value.value.id == "self":
+            # `self.<attr>.m(...)` where every binding of `self.<attr>` in the class is `Cls(...)` / `Cls.<classmethod>()`
+            # of ONE class of the tree (an object the instance owns): the method of that class
+            target = self._method_of_owned(scope, call.func.value.attr, call.func.attr)
         return target
+
+    def _method_of_owned(self, scope: FuncInfo, attr: str, method: str) -> str | None:
+        top = scope
+        while top.outer is not None:
+            top = top.outer
+        cls = top.cls
+        if cls is None:
+            return None
+        cache = self.__dict__.setdefault("_owned_classes", {})
+        key = (cls.qual, attr)
+        if key not in cache:
+            names = {attr, f"_{cls.name.lstrip('_')}{attr}"} if attr.startswith("__") and not attr.endswith("__") else {attr}
+            found: set = set()
+            for c in [cls, *self.subclasses(cls), *[k for k in self.mro(cls) if k is not cls]]:
+                for m in c.methods.values():
+                    for n in walk_function(m.node):
+                        tgts = n.targets if isinstance(n, ast.Assign) else [n.target] if isinstance(n, ast.AnnAssign) and n.value is not None else []
+                        for t in tgts:
+                            if isinstance(t, ast.Attribute) and t.attr in names and isinstance(t.value, ast.Name) and t.value.id == "self":
+                                v = n.value
+                                q = None
+                                if isinstance(v, ast.Call):
+                                    q = self.resolve(m.module, v.func, m)
+                                    if q not in self.classes and isinstance(v.func, ast.Attribute):
+                                        q0 = self.resolve(m.module, v.func.value, m)  # Cls.empty()
+                                        q = q0 if q0 in self.classes else None
+                                found.add(q if q in self.classes else None)
+            cache[key] = self.classes[next(iter(found))] if len(found) == 1 and None not in found else None
+        owned = cache[key]
+        if owned is None:
+            return None
+        m = self.lookup_method(owned, method)
+        return m.qual if m is not None else None
 
     def _method_of_local(self, mod: Module, scope: FuncInfo, name: str, attr: str) -> str | None:
         cache = self.__dict__.setdefault("_local_classes", {})
